@@ -1,9 +1,9 @@
 (* Codec.v — how text values travel (C04):
      json_esc       <- serde_json's string escaping (serde_json::to_string in get_mutate_query: the _json column)
      json_unesc     <- JSON string unescaping (what any JSON reader makes of it)
-     decode_literal <- the three copies of  pair.as_str().replace(<backslash quote>, <quote>)  that turn the text between the
-                       quotes of a literal into its value (mutation_parser.rs parse_string_type, query_parser.rs
-                       parse_field_value / search, data_model_parser.rs default values)
+     decode_literal <- query_language::decode_string_literal (commit cdaba75), which turns the text between the quotes
+                       of a literal into its value at the four call sites (mutation_parser.rs parse_string_type,
+                       query_parser.rs parse_field_value / search, data_model_parser.rs default values)
      tokens         <- the `string` / `char` rules of the three .pest grammars: what a literal may contain
    Text = list of Unicode scalar values (QLang.str).  No proofs here. *)
 From DV Require Export QLang.
@@ -83,16 +83,40 @@ Fixpoint json_unesc (l : str) : option str :=
       else option_map (cons c) (json_unesc t)
   end.
 
-(* Rust's str::replace(<backslash quote>, <quote>): scan from the left, non-overlapping *)
-Fixpoint decode_literal (l : str) : str :=
-  match l with
-  | [] => []
-  | c :: t =>
-      match t with
-      | e :: r => if N.eqb c 92 && N.eqb e 34 then 34%N :: decode_literal r else c :: decode_literal t
-      | [] => [c]
-      end
+(* decode_string_literal: one pass over the characters; a \u escape gives a UTF-16 code unit, a high surrogate
+   waits for the low one that must follow, a surrogate that stays alone becomes U+FFFD *)
+Definition flush (pending : option N) : str := match pending with Some _ => [65533%N] | None => [] end.
+Definition fix_unit (u : N) : N := if is_low u then 65533%N else u.
+(* what one escape unit adds to the output, given the pending high surrogate *)
+Definition unit_out (pending : option N) (u : N) : str :=
+  match pending with
+  | Some h => if is_low u then [(65536 + (h - 55296) * 1024 + (u - 56320))%N]
+              else 65533%N :: (if is_high u then [] else [fix_unit u])
+  | None => if is_high u then [] else [fix_unit u]
   end.
+Definition unit_pending (u : N) : option N := if is_high u then Some u else None.
+Definition esc_unit (e : N) : N := match simple_esc e with Some v => v | None => e end.
+
+Fixpoint decode_from (pending : option N) (l : str) : str :=
+  match l with
+  | [] => flush pending
+  | c :: t =>
+      if N.eqb c 92 then
+        match t with
+        | [] => unit_out pending 92%N ++ flush (unit_pending 92%N)
+        | e :: r =>
+            if N.eqb e 117 then
+              match r with
+              | a :: b :: c' :: d :: r1 =>
+                  let u := match hex4 a b c' d with Some u => u | None => 65533%N end in
+                  unit_out pending u ++ decode_from (unit_pending u) r1
+              | _ => unit_out pending 65533%N      (* not produced by the grammars *)
+              end
+            else unit_out pending (esc_unit e) ++ decode_from (unit_pending (esc_unit e)) r
+        end
+      else flush pending ++ c :: decode_from None t
+  end.
+Definition decode_literal (l : str) : str := decode_from None l.
 
 (* ---- what the grammars accept between the quotes ---- *)
 Inductive esc := EQuote | EBslash | ESlash | Eb | Ef | En | Er | Et | Eu (a b c d : N).
@@ -113,20 +137,20 @@ Definition render_esc (e : esc) : str :=
 Definition render_tok (t : tok) : str := match t with TChar c => [c] | TEsc e => render_esc e end.
 Definition render (ts : list tok) : str := flat_map render_tok ts.
 
-(* the value a JSON reader gives to one token (a \u escape gives its UTF-16 code unit; pairing of
-   surrogates is left out: it plays no role in what is proved about literals) *)
+(* the value a literal denotes: characters denote themselves, an escape its JSON meaning - a \u escape is a
+   UTF-16 code unit, a high surrogate followed by a low one is one scalar, a surrogate left alone is U+FFFD *)
 Definition esc_value (e : esc) : N :=
   match e with
   | EQuote => 34 | EBslash => 92 | ESlash => 47 | Eb => 8 | Ef => 12 | En => 10 | Er => 13 | Et => 9
-  | Eu a b c d => match hex4 a b c d with Some u => u | None => 0 end
+  | Eu a b c d => match hex4 a b c d with Some u => u | None => 65533 end
   end%N.
-Definition tok_value (t : tok) : N := match t with TChar c => c | TEsc e => esc_value e end.
-Definition toks_value (ts : list tok) : str := map tok_value ts.
-
-(* what the three parsers make of one token: only the escaped quote is decoded *)
-Definition tok_literal (t : tok) : str := match t with TEsc EQuote => [34%N] | _ => render_tok t end.
-Definition only_quote_escapes (ts : list tok) : bool :=
-  forallb (fun t => match t with TChar _ | TEsc EQuote => true | TEsc _ => false end) ts.
+Fixpoint toks_from (pending : option N) (ts : list tok) : str :=
+  match ts with
+  | [] => flush pending
+  | TChar c :: r => flush pending ++ c :: toks_from None r
+  | TEsc e :: r => unit_out pending (esc_value e) ++ toks_from (unit_pending (esc_value e)) r
+  end.
+Definition toks_value (ts : list tok) : str := toks_from None ts.
 
 (* tokenizer (the `char*` rule) *)
 Definition simple_tok (e : N) : option esc :=
